@@ -210,6 +210,7 @@ func (c *Converter) fromSingleFile(name string) ([]byte, error) {
 	res, err := c.fromReader(bytes.NewReader(b), name, filters)
 	if errors.Is(err, errNoConverter) { /* That's ok. */
 		res = b
+		err = nil
 	} else if nil != err {
 		return nil, fmt.Errorf("converting: %w", err)
 	}
